@@ -229,6 +229,7 @@ def run(ctx):
         cases = gen_cases(ctx, rnd) + [dict(d=d, v=v) for d, v in extra]
     for c in cases[:2] + cases[-2:]:
         ctx.sample(c)
+    obs = None
     rc, envd, err = ctx.run_driver("c03_driver.py", [], args=("--env",))
     if rc != 0 or not envd:
         ctx.fail("harness/env", "class table could not be computed: " + err[-400:], dict(error=err[-2000:]), no_input=True)
@@ -237,7 +238,7 @@ def run(ctx):
         obs = single.run(ctx, "c03_driver.py", cases, to_term, header, CASE_T, key_fn, describe, nontrivial, RELATION,
                    check_obs=check_obs, sanitize=(ctx.tier == "thorough"), shard=550)
     for c, o in zip(cases, obs or []):          # a validator that changes its argument: a failing input of its own
-        if o.get("mut"):
+        if o.get("mut") and sum(1 for x in ctx.violations if x[0].startswith("input-mutated")) < 5:
             ctx.fail("input-mutated/%s/%s" % (pv.shape(c["d"]), pv.vshape(c["v"])),
                      "trait %s: the value %s was MUTATED by %s (it re-encodes differently after the call)" % (
                          pv.shape(c["d"]), json.dumps(c["v"])[:120], ", ".join(o["mut"])),
